@@ -37,7 +37,7 @@ CHECKS = {
          "For every budget k = 0..k_max the library's k-th iterate must equal the published recurrence (Kingma-Ba Adam with bias correction; plain, momentum, Nesterov SGD) within 1e-10(1+|x|) on prefixes where six perturbed shadow references agree (chaotic continuations truncated, never failed); early stopping only once the reference has stopped changing relative to its own size (oscillating, sign-flip, tiny-gradient and tiny-scale classes); determinism bit-exact (also for clones); Adam::default() / with_stepsize equal Adam::new with the documented Kingma-Ba defaults; budgets beyond 200 (400..800 quick, to 2000 thorough) with slow first-moment decay; LM: RSS never above the start, least-squares solution reached on linear models (basis columns scaled 0.01..1000, cond(J'J) <= 1e9, gradient tolerance 1e-12 and the default 1e-6) within 100 steps, covariance s^2 (J'J)^-1. " + X,
          "Objectives avoid two defects of the `reverse` dependency (f64/Var derivative weight, powi(0)); about 12 % of trajectory prefixes are truncated by the chaos gate.", "4/C10"),
  "C11": ("exhaustive permutation matrices of order <=6 + proptest matrix classes; dd reconstruction bounds, Bareiss exact determinant, inversion-count sign",
-         "Cholesky structure/reconstruction/rejection of non-PD input, LU permutation/|l|<=1/reconstruction, slice-vs-Matrix identity, det sign and value (exact for integer matrices n<=12), triangular solves (right-hand sides with unit-vector / leading-zero / sparse patterns, zeros inside the triangle). Exhaustive on the 873 permutation matrices, sampled elsewhere.",
+         "Cholesky structure/reconstruction/rejection of non-PD input (SPD classes incl. nearly dependent coordinate pairs and one tiny eigenvalue at cond 2e6..8e7), LU permutation/|l|<=1/reconstruction, slice-vs-Matrix identity, det sign and value (exact for integer matrices n<=12), triangular solves (right-hand sides with unit-vector / leading-zero / sparse patterns, zeros inside the triangle). Exhaustive on the 873 permutation matrices, sampled elsewhere.",
          "Rejection is only demanded for clearly non-PD input (lambda_min <= -1e-6 max|lambda|, non-positive diagonal, asymmetry >= 1e-3).", "4/C11"),
  "C12": ("exhaustive enumeration of small shape pairs + proptest random shapes + libFuzzer (thorough), bit-exact NumPy-broadcast reference model",
          "All 1296 shape pairs with dims 1..6 x 4 operators x 3 operand kinds x 4 ownership forms, and six large shapes (16k-90k elements) x 9 broadcast patterns, are enumerated in every run and compared bit for bit with an index-level reference model; larger shapes are sampled by proptest and by a coverage-guided libFuzzer campaign in the thorough tier. Exhaustive on the small space, sampling beyond it.",
@@ -61,7 +61,7 @@ CHECKS = {
          "13 distributions x (exhaustive grid of all single and ordered-pair mutations by target class + random histories up to 20 (60) ops): valid targets must succeed, invalid must panic, object must equal its twin after every step, seeded sampling reproducible regardless of other objects, bulk sample_n / sample_matrix of up to 300000 draws reproducible from the seed, NaN treated alike by constructor / setter / update, Default::default() objects in-domain, draws of an interval law after a rejected update have positive density under the object itself; every history runs on a watched thread (a history that does not terminate is a violation, not a time-out); libFuzzer campaign over byte-decoded histories in the thorough tier. " + X,
          "A rejected bulk update of a two-parameter law is only required to leave an in-domain object; identical panics on object and twin count as identical behaviour.", "4/C18"),
  "C19": ("enumerated lengths 1..40 x data classes x seeds + proptest; bit-pattern multiset/pairing oracles; Bernstein/DKW position-uniformity bounds at alpha=1e-12",
-         "bootstrap count/length/membership and per-position uniformity (pooled, and separately for the first and last slot of the resamples), data incl. NaN of both signs, jackknife exact leave-one-out, shuffle multiset, shuffle_two common permutation (pair multiset), mismatch panic; every length from 1. " + X,
+         "bootstrap count/length/membership and per-position uniformity (pooled, and separately for the first and last slot of the resamples), data incl. NaN of both signs, jackknife exact leave-one-out, shuffle multiset, shuffle_two common permutation (pair multiset), 5000 (thorough 100000) seeds each at the longest listed length for rare random events, mismatch panic; every length from 1. " + X,
          "Uniformity can only reject deviations larger than the Bernstein/DKW band of the pooled draws.", "4/C19"),
  "C20": ("proptest scalar triples and point sets for RBF/RQ; dd closed forms, delta-expansion entry bound, cyclic Jacobi smallest eigenvalue + dd quadratic forms",
          "Scalar symmetry, variance at zero, bounds, monotonicity in distance, closed form; matrix form shape and entry-by-entry agreement with the scalar form; Gram matrix symmetric within 4 eps (1+|ln(K/var)|) and PSD within the expansion's rounding bound; constructors reject non-positive parameters. " + X,
